@@ -418,6 +418,10 @@ class Gen:
                     ops.append({"h": r.choice(cands)})
                 else:
                     ops.append({"h": self.leaf(shp)})
+            if any(np.asarray(self.np.opnd(o)).dtype.kind != "f" for o in ops):
+                # (integer operands: with constant=False MyGrad refuses an integer INTERMEDIATE product although the chain's
+                #  result is float - left out of the programs)
+                return False
             s = {"k": "op", "h": h, "f": "multimatmul", "a": ops}
         elif fam == "matmul":
             if A.ndim == 0:
